@@ -166,6 +166,10 @@ func (c13) Run(t *tape.Tape, tier Tier) *Result {
 			res.add(Violation{Prop: "C13", Oracle: "join-text", Culprit: "errors.Join", Expected: fmt.Sprintf("%q", exp), Observed: fmt.Sprintf("%q", jn.Error())})
 		}
 	})
+	if gen.JoinArgMutations > 0 {
+		res.add(Violation{Prop: "C13", Oracle: "join-modifies-argument-slice", Culprit: "errors.Join", Expected: "the caller's slice untouched", Observed: fmt.Sprint(gen.JoinArgMutations, " elements changed")})
+		gen.JoinArgMutations = 0
+	}
 	// ---- cluster and route
 	fams := familiesOf(m1)
 	nproc := 2 + t.Draw(4)
@@ -322,8 +326,22 @@ func (c13) Run(t *tape.Tape, tier Tier) *Result {
 				}
 			}
 		}
-		// %+v shows every branch: the message tokens of each branch
+		// %+v shows every branch: the message tokens of each branch; rendered
+		// through Formattable and, when the outermost layer is a type of the
+		// library (whose Format method must do the same), directly
 		verbose := obs.Fmt("%+v", d.Err)
+		if pp := reflect.TypeOf(d.Err); pp != nil {
+			et := pp
+			if et.Kind() == reflect.Ptr {
+				et = et.Elem()
+			}
+			if strings.HasPrefix(et.PkgPath(), "github.com/cockroachdb/errors") {
+				direct := obs.FmtDirect("%+v", d.Err)
+				if direct != verbose {
+					res.add(Violation{Prop: "C13", Oracle: "verbose-direct-equals-formattable", Culprit: fmt.Sprintf("%T", d.Err), Expected: short(verbose), Observed: short(direct), Where: where})
+				}
+			}
+		}
 		for i, n := range want {
 			if n.Multi == 0 {
 				continue
